@@ -458,6 +458,9 @@ func run(c *core.Ctx) error {
 	if err := circles(c); err != nil {
 		return err
 	}
+	if err := boxEdges(c); err != nil {
+		return err
+	}
 
 	// a second model configuration (other term shifts, subdivision down to single points): model only
 	var mwg sync.WaitGroup
